@@ -981,7 +981,11 @@ pub fn c16(seed: u64, thorough: bool) -> Scenario {
             } else {
                 // Sometimes a key that is never written (its waiters must stay pending).
                 let key = if b.r.chance(0.1) { 7 } else { key };
-                StOp::Notify { key }
+                if b.r.chance(0.2) {
+                    StOp::NotifyDrop { key }
+                } else {
+                    StOp::Notify { key }
+                }
             };
             ops.push(op);
         }
